@@ -27,6 +27,8 @@ Structure
 import NGF.Model.PanicSites
 import NGF.Proofs.PanicSites
 import NGF.Generated.PanicSites
+import NGF.Props.C05Deref
+import NGF.Props.C05Guards
 
 namespace NGF.PanicSites
 
